@@ -886,8 +886,18 @@ def current_route_path(request, *elements, **kw):
     return request.current_route_path(*elements, **kw)
 
 
-@lru_cache(1000)
 def _join_elements(elements):
+    # key the cache on the text that is quoted: as dictionary keys 1, 1.0
+    # and True are equal, but they are different path segments
+    return _join_quoted_elements(
+        tuple(
+            [s if s.__class__ in (str, bytes) else str(s) for s in elements]
+        )
+    )
+
+
+@lru_cache(1000)
+def _join_quoted_elements(elements):
     return '/'.join(
         [quote_path_segment(s, safe=PATH_SEGMENT_SAFE) for s in elements]
     )
